@@ -103,6 +103,8 @@ WHITELIST = [
     ("safe_map_values", ["arr", "arr", "barr", "opt_int"]),
     ("ordered_inner_map_left_unique", ["arr", "arr", "arr", "arr"]),
     ("ordered_inner_map", ["arr", "arr", "arr", "arr"]),
+    # KT4B
+    ("ordered_generate_journalling_indices", ["arr", "arr"]),
 ]
 
 LEAN_T = {"int": "Int", "bool": "Bool", "arr": "List Int", "barr": "List Bool", "opt_arr": "Option (List Int)",
